@@ -327,6 +327,39 @@ func (v *TV) collectStructs(out *[]*TV) {
 	}
 }
 
+// noncanonBools: bool bytes other than 0 / 1 (well-formed Thrift, read as false) in list / set
+// elements and map keys / values at every nesting level (field values are done by decorate).
+// Nodes may be shared between duplicated fields: bool nodes are replaced, never modified.
+func (v *TV) noncanonBools(r *rand.Rand) {
+	odd := func(xs []*TV) {
+		for i, x := range xs {
+			if x.T == tBOOL && r.Intn(3) == 0 {
+				nv := *x
+				nv.N = uint64(2 + r.Intn(254))
+				xs[i] = &nv
+			}
+		}
+	}
+	switch v.T {
+	case tSTRUCT:
+		for _, f := range v.Fields {
+			f.V.noncanonBools(r)
+		}
+	case tMAP:
+		odd(v.Keys)
+		odd(v.Elems)
+		for i := range v.Keys {
+			v.Keys[i].noncanonBools(r)
+			v.Elems[i].noncanonBools(r)
+		}
+	case tSET, tLIST:
+		odd(v.Elems)
+		for _, e := range v.Elems {
+			e.noncanonBools(r)
+		}
+	}
+}
+
 // shuffleFields permutes the field order of every struct in the tree.
 func (v *TV) shuffleFields(r *rand.Rand) {
 	v.walkStructs(func(s *TV) {
